@@ -65,6 +65,7 @@ pub fn profile_for(prop: &str, tier: &str) -> Profile {
         p.long_pct = 12;
     }
     if prop == "C03" {
+        p.alias_pct = 40;
         p.foreign_coin_pct = 8;
         p.stray_funds_pct = 15;
     }
